@@ -341,6 +341,16 @@ def _c04_specials():
                     if as_file:
                         inp_e["as_file"] = True
                     out.append(("empty-graph", inp_e, cfg, 0))
+    # turtle_iter: a plain string literal is the last token of its line, the closing ';' ',' '.' comes on the next line
+    pre = "".join("@prefix %s: <%s> .\n" % (pfx, ns) for ns, pfx in G.NAMESPACES.items())
+    layouts = ['ex:s1 a ex:A\n; ex:name "Alice"\n; ex:nick "Al"\n.\nex:s2 a ex:A ;\n ex:name "Bob"\n.\n',
+               'ex:s1 a ex:A .\nex:s1 ex:name "Alice"\n.\n', 'ex:s1 a ex:A .\nex:s1 ex:name "Alice"\n, "Alicia"\n.\n',
+               'ex:s1 a ex:A ;\n  ex:name "Alice"\n  ; ex:q ex:s2\n  ; ex:note "a b c"\n.\nex:s2 a ex:B\n; ex:name "x"\n.\n',
+               'ex:s1\n a ex:A ;\n ex:name "Alice" ;\n ex:name "Al"\n .\n', 'ex:s1 a ex:A ; ex:name "Alice"\n;\nex:name "B"\n.\n']
+    for li, txt in enumerate(layouts):
+        for cfg in (allc, {"target_classes": [G.CLASS_A]}, _merge(allc, {"inverse_paths": True, "examples_mode": "all"})):
+            out.append(("turtle-iter-literal-ends-line", {"format": "turtle_iter", "text": pre + txt}, cfg, 0))
+        out.append(("turtle-iter-literal-ends-line", {"format": "turtle", "text": pre + txt}, allc, 0))
     no_types = [M.Triple(s1, G.PROP_P, M.Lit("x")), M.Triple(s1, G.PROP_Q, s2)]
     out.append(("no-type-triples", SU.render_input(no_types, "nt"), allc, 0))
     out.append(("no-type-triples", SU.render_input(no_types, "nt"), {"target_classes": [G.CLASS_A], "inverse_paths": True}, 0))
@@ -597,6 +607,37 @@ def gen_C05(tier, rng):
                     cases.append({"pid": "C05", "origin": "class-iri-is-an-instance", "input": {"format": "nt", "text": U.to_nt(Tc)},
                                   "cfg": _merge({"all_classes_mode": True, "shape_map_raw": sm}, {"inverse_paths": True} if k % 3 == 0 else {}),
                                   "t": (0, 0, 0.5)[k % 3]})
+    # disable_or_statements=False with objects in two or more shapes: `@:A OR @:B` in every position of its shape
+    sC, a1, b1, c1 = M.IRI(G.EX + "s1"), M.IRI(G.EX + "a1"), M.IRI(G.EX + "b1"), M.IRI(G.EX + "c1")
+    k = 0
+    for n_before in (0, 1, 2):
+        for n_after in (0, 1, 2):
+            for three in (False, True):
+                k += 1
+                To = [M.Triple(sC, M.RDF_TYPE, M.IRI(G.EX + "C")), M.Triple(a1, M.RDF_TYPE, M.IRI(G.CLASS_A)), M.Triple(b1, M.RDF_TYPE, M.IRI(G.CLASS_B)),
+                      M.Triple(sC, G.EX + "m", a1), M.Triple(sC, G.EX + "m", b1)]
+                if three:
+                    To += [M.Triple(c1, M.RDF_TYPE, M.IRI(G.EX + "D")), M.Triple(sC, G.EX + "m", c1), M.Triple(sC, G.EX + "m", M.BNode("z"))]
+                # constraints are sorted by frequency, then by insertion: properties before / after `m` in the document
+                pre = [M.Triple(sC, G.EX + "a%d" % j, M.Lit("x")) for j in range(n_before)]
+                post = [M.Triple(sC, G.EX + "z%d" % j, M.Lit("y")) for j in range(n_after)]
+                Tk = To[:3] + pre + To[3:] + post
+                for extra in ({}, {"allow_redundant_or": True}, {"inverse_paths": True}):
+                    cases.append({"pid": "C05", "origin": "or-statement-position", "input": {"format": "nt", "text": U.to_nt(Tk)},
+                                  "cfg": _merge({"all_classes_mode": True, "disable_or_statements": False}, extra), "t": 0})
+    # shape-map labels in a HASH namespace while namespaces_dict only declares the enclosing slash namespace
+    for k, (ns_decl, labels) in enumerate([
+            ({"http://shapes.example/": "sx"}, ["http://shapes.example/schema#PersonShape", "http://shapes.example/schema#OrgShape"]),
+            ({"http://shapes.example/": "sx", "http://shapes.example/schema#": "sch"}, ["http://shapes.example/schema#PersonShape", "http://shapes.example/schema#OrgShape"]),
+            ({"http://shapes.example/": "sx"}, ["http://shapes.example/a/PersonShape", "http://shapes.example/b/PersonShape"]),
+            ({"http://shapes.example/": "sx", "http://shapes.example/schema": "sy"}, ["http://shapes.example/schema#P", "http://shapes.example/schema/P"]),
+            ({"http://shapes.example/schema#": "sch", "http://shapes.example/": "sx"}, ["http://shapes.example/schema#P", "http://shapes.example/Q"])]):
+        n1, n2 = M.IRI(G.EX + "s1"), M.IRI(G.EX + "s2")
+        Th = [M.Triple(n1, G.PROP_P, n2), M.Triple(n2, G.PROP_Q, M.Lit("x")), M.Triple(n2, G.PROP_P, n1)]
+        sm = "<%s>@<%s>\n<%s>@<%s>" % (n1.iri, labels[0], n2.iri, labels[1])
+        for extra in ({}, {"inverse_paths": True}, {"all_classes_mode": True}):
+            cases.append({"pid": "C05", "origin": "hash-namespace-labels", "input": {"format": "nt", "text": U.to_nt(Th)},
+                          "cfg": _merge({"shape_map_raw": sm, "namespaces_dict": _merge(dict(G.NAMESPACES), ns_decl)}, extra), "t": 0})
     # blank-node classes (printed as [<_:x>]): a handful, to observe
     s1, s2 = M.IRI(G.EX + "s1"), M.IRI(G.EX + "s2")
     Tb = [M.Triple(s1, M.RDF_TYPE, M.BNode("c")), M.Triple(s2, M.RDF_TYPE, M.BNode("c")), M.Triple(s1, M.RDF_TYPE, M.IRI(G.CLASS_A)),
@@ -659,6 +700,8 @@ def check_C11(case, B):
         B.mark(nt, cfg, t)
     spec = U.spec_for(U.parse_nt(nt), cfg)
     l2c = PL._l2c(spec, cfg.get("shapes_namespace", U.SHAPES_NS))
+    for C in cfg.get("target_classes") or []:              # requested classes without instances (remove_empty_shapes=False) keep their shape
+        l2c.setdefault(U.label_of(U.expand_class(C), cfg.get("shapes_namespace", U.SHAPES_NS)), U.expand_class(C))
     labels = [s["label"] for s in nd]
     for lab in sorted(set(labels) - set(shapes)):
         emit("C11:shape-set:missing-in-shacl", "ShExC defines shape %s, SHACL has no such sh:NodeShape (has %s)" % (lab, sorted(shapes)),
@@ -718,6 +761,7 @@ def check_C11(case, B):
 
 
 def gen_C11(tier, rng):
+    M, S, G = U.lib()
     n_enum, n_rand = {"selftest": (24, 24), "quick": (4000, 7000), "thorough": (20000, 40000)}[tier]
     cases = []
     modes = ("all", "A", "AB")
@@ -727,6 +771,12 @@ def gen_C11(tier, rng):
             cfg = _merge(PL._mode_cfg(modes[(gi + j) % 3]), {"inverse_paths": True} if (gi + j) % 2 else {},
                          {} if j == 0 else PL._switch_combo(rng, 0.5))
             cases.append({"pid": "C11", "origin": origin, "input": {"format": "nt", "text": nt}, "cfg": cfg, "t": (0, 0.5, 1)[(gi + 2 * j) % 3]})
+            if j == 1 and gi % (4 if tier == "selftest" else 25) == 2:       # a requested class without instances keeps an empty shape
+                cfg2 = _merge(dict((k_, v_) for k_, v_ in cfg.items() if k_ != "all_classes_mode"),
+                              {"target_classes": [G.CLASS_A, G.EX + "Robot"] if gi % 2 else [G.EX + "Robot", G.CLASS_B, G.OTHER + "Ghost"],
+                               "remove_empty_shapes": False})
+                cases.append({"pid": "C11", "origin": "target-class-without-instances", "input": {"format": "nt", "text": nt}, "cfg": cfg2,
+                              "t": (0, 0.5, 1)[gi % 3]})
             if j == 0 and gi % (4 if tier == "selftest" else 20) == 3:       # cross-format call history on one Shaper
                 t1, t2 = ((0, 0.5), (0, 1), (0.5, 1), (1, 0), (0.5, 0), (1, 0.5))[(gi // 4) % 6]
                 seqs = ([[SHACL, t1], [SHACL, t2], [SHEXC, t2]], [[SHEXC, t1], [SHACL, t1], [SHEXC, t2], [SHACL, t2]],
@@ -1065,7 +1115,7 @@ def check_C17(case, B):
     M, S, G = U.lib()
     nt, base, inv = case["nt"], case["base"], bool(case.get("inverse"))
     T = U.parse_nt(nt)
-    inp = {"format": "nt", "text": nt}
+    inp = {"format": case.get("format", "nt"), "text": case.get("text", nt)}      # "text": the same triples in another syntax (rdflib path)
     base = _merge(base, {"inverse_paths": True} if inv else {})
     spec = U.spec_for(T, base)
     l2c = PL._l2c(spec)
@@ -1083,7 +1133,7 @@ def check_C17(case, B):
         text = B.call(go)
         return box[0], text
     try:
-        _, t0 = run(base)
+        shp0, t0 = run(base)
         d0 = B.parse(t0)
     except U.Skipped:
         return
@@ -1192,6 +1242,18 @@ def check_C17(case, B):
             shapes, _, _ = SU.parse_shacl(ttl)
         except SU.ShaclError:
             shapes = None
+        if shapes is not None and (case.get("shacl_base") or any(st is None for st in stems.values())):
+            # SHACL with the option == SHACL without it, apart from sh:pattern
+            try:
+                _, ttl0 = run(None, SHACL, shp0)
+                shapes0, _, _ = SU.parse_shacl(ttl0)
+                flat = lambda sh_: sorted((lab, d["target"], sorted(((p["dir"], p["p"], p["restr"], p["min"], p["max"]) for p in d["props"]), key=repr))
+                                          for lab, d in sh_.items())
+                if flat(shapes) != flat(shapes0):
+                    emit("C17:structure-changed:detect_minimal_iri:shacl", "SHACL: detect_minimal_iri changes node shapes / property shapes (besides "
+                         "sh:pattern)", shacl=ttl[:1500], baseline=ttl0[:1500])
+            except (U.Skipped, SU.ShaclError):
+                pass
         if shapes is not None:
             for lab, st in stems.items():
                 pat = shapes.get(lab, {}).get("pattern", [])
@@ -1279,6 +1341,17 @@ def _c17_special_cases():
             T = T[:2] + T[4:] + T[2:4]
         cases.append({"pid": "C17", "origin": "padded-literal-examples", "nt": U.to_nt(T), "base": {"all_classes_mode": True},
                       "inverse": k % 2 == 1, "modes": ["cons", "all"]})
+    XSD = M.XSD
+    typed = [M.Lit("true", dt=XSD + "boolean"), M.Lit("false", dt=XSD + "boolean"), M.Lit("2021-03-04T10:20:30", dt=XSD + "dateTime"),
+             M.Lit("2021-03-04", dt=XSD + "date"), M.Lit("1.50", dt=XSD + "decimal"), M.Lit("007", dt=M.XSD_INTEGER), M.Lit("1.0E2", dt=XSD + "double"),
+             M.Lit("2021-03-04T10:20:30Z", dt=XSD + "dateTime")]
+    for k in range(16):                                  # first-seen values are typed literals, read through rdflib (turtle)
+        vs = [typed[(k + j) % len(typed)] for j in range(3)]
+        T = [M.Triple(i1, M.RDF_TYPE, M.IRI(A)), M.Triple(i1, G.EX + "p", vs[0]), M.Triple(i1, G.OTHER + "q", vs[1]), M.Triple(i2, M.RDF_TYPE, M.IRI(A)),
+             M.Triple(i2, G.EX + "p", vs[2]), M.Triple(i2, G.EX + "k", i1)]
+        cases.append({"pid": "C17", "origin": "typed-literal-examples-rdflib", "nt": U.to_nt(T), "format": "turtle",
+                      "text": SU.to_turtle(T, prefixed=k % 2 == 0, use_a=k % 4 < 2), "base": {"all_classes_mode": True}, "inverse": k % 2 == 1,
+                      "modes": ["cons", "all"]})
     for k in range(8):
         T = [M.Triple(i1, M.RDF_TYPE, M.IRI(A)), M.Triple(i1, G.EX + "p", M.Lit("x"))]
         if k % 2:
@@ -1301,6 +1374,8 @@ def gen_C17(tier, rng):
         T = c17_graph(rng, nss)
         base = {"all_classes_mode": True} if gi % 3 else {"target_classes": [G.EX + "A"]}
         cases.append({"pid": "C17", "origin": "stems", "nt": U.to_nt(T), "base": base, "inverse": gi % 2 == 1})
+        if gi % 5 == 0:
+            cases[-1]["shacl_base"] = True
     return cases
 
 
@@ -1372,8 +1447,10 @@ def check_C15(case, B):
     nt, sel, inv, track = case["nt"], case["sel"], bool(case.get("inverse")), bool(case.get("track"))
     T = U.parse_nt(nt)
     extra = case.get("extra") or {}              # e.g. {"limit_remote_instances": 2, "instances_cap": 4}: given to BOTH runs
+    extra_local = case.get("extra_local")        # the local counterpart when it differs ({"instances_cap": k} for limit_remote_instances=k alone)
     selkw = _merge(_c15_selection(sel), extra)
-    spec, l2c = _c15_spec(T, sel, inv, extra)
+    selkw_local = selkw if extra_local is None else _merge(_c15_selection(sel), extra_local)
+    spec, l2c = _c15_spec(T, sel, inv, extra if extra_local is None else extra_local)
     expect = case.get("expect")                  # dedicated families of known root causes: their differences get their own keys
     colliding = case.get("by_class_iri")         # classes with one local name: their shapes share a label (known, C05) and are told apart
     if colliding:                                # by the class IRI of their rdf:type value set
@@ -1398,7 +1475,7 @@ def check_C15(case, B):
 
     def local(text):
         def go():
-            return SU.shex(SU.new_shaper({"format": "nt", "text": text}, _merge(selkw, {"inverse_paths": inv})), SHEXC, 0)
+            return SU.shex(SU.new_shaper({"format": "nt", "text": text}, _merge(selkw_local, {"inverse_paths": inv})), SHEXC, 0)
         return relabel(U.norm_doc(B.parse(B.call(go))))
     try:
         lo = local(nt)
@@ -1606,6 +1683,9 @@ def _c15_cap_cases(rng, n):
         if i % 4 == 0:
             cases.append({"pid": "C15", "origin": "cap-only", "nt": U.to_nt(T), "sel": sel, "inverse": False, "track": False,
                           "extra": {"instances_cap": cap}})
+        if i % 2 == 0:                                   # limit_remote_instances alone: the local counterpart is instances_cap
+            cases.append({"pid": "C15", "origin": "limit-only", "nt": U.to_nt(T), "sel": sel, "inverse": False, "track": i % 4 == 0,
+                          "extra": {"limit_remote_instances": limit}, "extra_local": {"instances_cap": limit}})
     return cases
 
 
@@ -1944,7 +2024,7 @@ def _mutants():
 
     def setattr_patch(obj, name, new):
         def patch():
-            old = getattr(obj, name)
+            old = obj.__dict__[name] if name in getattr(obj, "__dict__", {}) else getattr(obj, name)    # keeps staticmethod descriptors
             setattr(obj, name, new)
             return lambda: setattr(obj, name, old)
         return patch
@@ -2188,6 +2268,73 @@ def _mutants():
                 else:
                     reference_dict[an_instance].append(a_class)
 
+    import shexer.io.shex.formater.statement_serializers.fixed_prop_choice_statement_serializer as fpc
+    import shexer.io.graph.yielder.rdflib_triple_yielder as rty
+    import shexer.io.graph.yielder.big_ttl_triples_yielder as btt
+    import shexer.utils.shapes as ush
+    import shexer.utils.factories.instance_tracker_factory as itf
+    orig_choice_serialize = fpc.FixedPropChoiceStatementSerializer.serialize_statement_with_indent_level
+
+    def choice_separator_inverted(self, a_statement, is_last_statement_of_shape, namespaces_dict):
+        return orig_choice_serialize(self, a_statement, not is_last_statement_of_shape, namespaces_dict)   # seeded: ';' only when LAST
+
+    def prefixize_longest_slash_only(target_uri, namespaces_prefix_dict, corners=True):
+        candidate_uri = target_uri[1:-1] if corners and target_uri.startswith("<") else target_uri
+        best = None
+        for ns in namespaces_prefix_dict:                                          # seeded: longest match, only '/' tested on the remainder
+            if candidate_uri.startswith(ns) and "/" not in candidate_uri[len(ns):] and (best is None or len(ns) > len(best)):
+                best = ns
+        return target_uri if best is None else candidate_uri.replace(best, namespaces_prefix_dict[best] + ":")
+
+    orig_add_shape = shs.ShaclSerializer._add_shape
+
+    def add_shape_skips_empty(self, shape):
+        if shape.n_statements == 0:                                                # seeded: early return for a shape without statements
+            return
+        orig_add_shape(self, shape)
+
+    def add_shape_returns_without_stem(self, shape):
+        r_shape_uri = self._generate_shape_uri(shape_name=shape.name)
+        self._add_shape_uri(r_shape_uri=r_shape_uri)
+        self._add_target_class(r_shape_uri=r_shape_uri, shape=shape)
+        if self._detect_minimal_iri:
+            if self._shape_example_features.shape_min_iri(shape_id=shape.class_uri) is None:
+                return                                                             # seeded: inlined _add_min_iri returns, constraints skipped
+            self._add_triple(r_shape_uri, shs._R_SHACL_PATTERN_PROP, self._literal_iri_pattern(shape))
+        self._add_shape_constraints(shape=shape, r_shape_uri=r_shape_uri)
+
+    def model_literal_to_python(rdflib_literal):
+        content = str(rdflib_literal.toPython())                                   # seeded: the Python value instead of the lexical form
+        if rdflib_literal.datatype is not None:
+            elem_type = str(rdflib_literal.datatype)
+        elif rdflib_literal.language is not None:
+            content = '"' + content + '"@' + rdflib_literal.language
+            elem_type = rty.LANG_STRING_TYPE
+        else:
+            elem_type = rty.STRING_TYPE
+        return rty.model_Literal(content=content, elem_type=elem_type)
+
+    orig_get_instance_tracker = shp.get_instance_tracker
+
+    def get_instance_tracker_cap_as_limit(**kw):
+        g = itf.get_triple_yielder                                                 # seeded: endpoint yielder built with limit_remote_instances=instances_cap
+        itf.get_triple_yielder = lambda **k: g(**dict(k, limit_remote_instances=kw.get("instances_cap", -1)))
+        try:
+            return orig_get_instance_tracker(**kw)
+        finally:
+            itf.get_triple_yielder = g
+
+    def literal_ending_off_by_one(self, target_str, start_index):
+        next_quotes = self._find_next_unescaped_quotes(target_str=target_str, start_index=start_index + 1)
+        if next_quotes + 1 > len(target_str) or target_str[next_quotes + 1] == " ":   # seeded guard: IndexError when the quote ends the line
+            return next_quotes
+        elif target_str[next_quotes + 1] == "^":
+            return self._find_next_blank(target_str, next_quotes) - 1
+        raise ValueError("Malformed literal? " + target_str)
+
+    def feature_dicts_not_split(self, shape_label):
+        return [self._c_shapes_dict[shape_label]]                                  # seeded: the (direct, inverse) tuple itself
+
     def add_dominant_loses_inverse(self, statement):
         statement.is_inverse = False                                               # seeded: merged NONLITERAL statement loses is_inverse
         orig_add_dominant(self, statement)
@@ -2210,6 +2357,22 @@ def _mutants():
          setattr_patch(bty.BaseTriplesYielder, "_decide_line_reader", decide_line_reader_truthy)),
         ("C05", "seeded: MixedInstanceTracker._integrate_dicts tests the class against the dict of instances",
          setattr_patch(mit.MixedInstanceTracker, "_integrate_dicts", integrate_dicts_wrong_ambiguity)),
+        ("C05", "seeded: the OR-constraint serializer inverted its ';' logic",
+         setattr_patch(fpc.FixedPropChoiceStatementSerializer, "serialize_statement_with_indent_level", choice_separator_inverted)),
+        ("C05", "seeded: prefixize_uri_if_possible (shape labels) picks the longest namespace and only tests '/' on the remainder",
+         setattr_patch(ush, "prefixize_uri_if_possible", prefixize_longest_slash_only)),
+        ("C11", "seeded: ShaclSerializer._add_shape returns early for a shape without statements",
+         setattr_patch(shs.ShaclSerializer, "_add_shape", add_shape_skips_empty)),
+        ("C17", "seeded: rdflib literals are converted with str(toPython())",
+         setattr_patch(rty.RdflibTripleYielder, "_turn_into_model_literal", staticmethod(model_literal_to_python))),
+        ("C17", "seeded: ShaclSerializer._add_shape returns before the constraints when the shape has no stem",
+         setattr_patch(shs.ShaclSerializer, "_add_shape", add_shape_returns_without_stem)),
+        ("C15", "seeded: the endpoint yielder of the instance tracker is built with limit_remote_instances=instances_cap",
+         setattr_patch(shp, "get_instance_tracker", get_instance_tracker_cap_as_limit)),
+        ("C04", "seeded: turtle_iter literal-ending guard off by one (IndexError when a plain literal ends its line)",
+         setattr_patch(btt.BigTtlTriplesYielder, "_find_next_quoted_literal_ending", literal_ending_off_by_one)),
+        ("C04", "seeded: IncludeReverseFeaturesStrategy.feature_dicts_of_shape returns the tuple itself",
+         setattr_patch(irfs.IncludeReverseFeaturesStrategy, "feature_dicts_of_shape", feature_dicts_not_split)),
         ("C11", "seeded: shex_graph returns a per-format cached string before looking at the threshold",
          setattr_patch(shp.Shaper, "shex_graph", shex_graph_output_cache)),
         ("C15", "seeded: class selectors for the endpoint are collected in a dict keyed by the class's local name",
